@@ -24,8 +24,10 @@ func findOutputDeps(instrs []*instruction) {
 func findOutputDepsReg(ins *instruction, regs keyInsMap) {
 	for r := range ins.outRegs {
 		dep, ok := regs[r]
+		// Every write has to stay before the closest following write of
+		// the register, not just before the last one.
+		regs[r] = ins
 		if !ok {
-			regs[r] = ins
 			continue
 		}
 
